@@ -47,9 +47,9 @@ LIBSRC = {"json.c", "b64encode.c", "hexify.c", "humansize.c", "asprintf.c", "soc
 
 def build(B):
     lib = B.build_lib("asan", only=LIBSRC)
-    shim = B.compile_c(os.path.join(HERE, "shim.c"))
+    shim = B.compile_c(os.path.join(HERE, "shim.c"), extra_flags=["-DC15_WRAP_FCLOSE"])
     core = B.compile_cxx(os.path.join(HERE, "core.cpp"))
-    return B.link(os.path.join(B.BUILD, "bin", "C15"), [core, shim] + list(lib.values()), libs=["-lrapidcheck"])
+    return B.link(os.path.join(B.BUILD, "bin", "C15"), [core, shim] + list(lib.values()), libs=["-lrapidcheck"], wraps=["fclose"])
 
 
 def prebuild(B):
